@@ -355,6 +355,18 @@ def c07(work, tier, seed):
             pout.coverage["tunnel_runs_failed"] = str(e)[:800]
             return pout
         raise
+    # tunnels of different users set up AT THE SAME TIME (the authentication backend takes its time over one of them while
+    # the other's request is handled): each tunnel acts for its own user
+    users = []
+    for n in range(3 if tier == "quick" else 12):
+        for tr in ("ws", "legacy"):
+            cfgu = {"tokenAuth": False, "smartCard": False, "auths": ["local"], "auth": "", "sel": "roundrobin", "hosts": [["H1", ":", "PA"]], "verifyIp": True, "idle": 0, "tls": True}
+            users.append({"id": "u%03d%s" % (n, tr), "cfg": cfgu, "kind": "tunuser", "transport": tr, "scheme": "local-slow", "interf": [{"method": "GET", "authz": "absent"}], "method": "", "authz": ""})
+    uout, urep, ures = fa.generic("C07", work, tier, seed, "front", "FrontTrace", users, design,
+                                  lambda v: "%s/%s/%s/concurrent-users" % (v["guard"], v["a"], v["b"]), "concurrent set-up of tunnels of different users",
+                                  owns=lambda v: v["guard"] == "G_C05_TunnelUserIsTheConfirmedOne", jobs=6, tag="c07-users")
+    out.violations += uout.violations
+    out.coverage["concurrent_users"] = {"scripts": len(users), "evaluations": uout.coverage.get("evaluations")}
     out.violations += pout.violations
     out.coverage["pairing"] = {"cells": [c for c in pout.coverage.get("cells", []) if "pair-" in c], "evaluations": pout.coverage.get("evaluations")}
     out.coverage["interleavings_2_tunnels"] = {"total": tot2, "run": len(il2)}
